@@ -16,7 +16,7 @@ def P(pid, **kw):
 _EXPL = "exploration"
 
 P("C01",
-  technique="PBT with independent oracle: rapid-generated envelopes (fresh / near-miss / re-assembled / byte-mutated) x policies; own JWS+COSE verifier and own payload decoder decide what a success may be; native fuzz in thorough",
+  technique="PBT with independent oracle: rapid-generated envelopes (fresh / near-miss / re-assembled / byte-mutated) x policies x reader behaviours x decoy signatures listed first; own JWS+COSE verifier and own payload decoder decide what a success may be; native fuzz in thorough",
   level_text="Exploration: every success reported by verifier.Verify/VerifyBlob and notation.Verify/VerifyBlob over generated envelopes, descriptors, metadata maps and all 24 enforcement maps is re-checked by an independent implementation of the envelope formats; cannot prove absence, but reaches the products of factors (mismatch x satisfied metadata, customised level x tampering) the unit tests never combine.",
   level_note="Trusts Go's crypto primitives, the harness's own JWS/COSE implementation (cross-validated against the library in both directions in every run) and fxamacker/cbor.",
   health={"success": 50, "src=fresh": 20, "src=descriptor-nearmiss": 20, "src=metadata-nearmiss": 20, "src=reassembled": 20, "src=bytemutated": 20, "src=wrong-payload-type": 5},
@@ -31,7 +31,7 @@ P("C02",
   assumptions=["non-critical extended attributes and a non-critical plugin-name attribute are outside the statement and not generated"])
 
 P("C03",
-  technique="model-based PBT: generated placements of chain certificates into typed named stores x statement store lists; set-semantics oracle + call-log invariant of an instrumented trust store",
+  technique="model-based PBT: generated placements of chain certificates into typed named stores x statement store lists; set-semantics oracle + call-log invariant of an instrumented trust store; scripted and real directory-backed stores; verifier instances reused across verifications",
   level_text="Exploration: authenticity verdict and the exact (type,name) sequence of trust-store loads compared with a set-semantics model over generated placements, multi-statement documents, both schemes and formats.",
   level_note="Trusts the instrumented trust store mock; a sub-family runs against the real directory-backed store.",
   health={"auth=pass": 30, "auth=fail": 30, "decoy-wrong-type": 10, "decoy-unlisted": 10, "decoy-other-statement": 10, "listed-store-error": 10, "real-directory-store": 10})
@@ -94,7 +94,7 @@ P("C09",
 
 P("C10",
   technique="model-based PBT: bounded-exhaustive enumeration + rapid random listings against a decision model, scripted repository/verifier call logs",
-  level_text="Exploration with an exhaustively enumerated core: every listing of up to 5 (quick) / 7 (thorough) signatures x every page split x every limit x reference kinds is run through notation.Verify and compared with a model written from the statement, including exact fetch/verify call counts; larger listings are sampled with rapid.",
+  level_text="Exploration with an exhaustively enumerated core: every listing of up to 5 (quick) / 8 (thorough) signatures x every page split x every limit x reference kinds is run through notation.Verify and compared with a model written from the statement, including exact fetch/verify call counts; larger listings are sampled with rapid; a second family realises the statuses with real signatures, the real verifier and an in-memory OCI store and evaluates the model on the order the store actually lists.",
   level_note="Trusts the scripted Repository/Verifier mocks to record calls faithfully and oras' reference parser for what counts as a tag/digest reference.",
   design_ref="DESIGN.md section 5, C10",
   health={"success": 10, "success-after-invalid": 5, "multi-page": 10, "empty-page": 5, "skip": 5, "ref=mismatch": 5, "limit<=0": 5, "real-verifier": 10},
@@ -127,7 +127,7 @@ P("C12",
   fuzz=[{"name": "FuzzC12_Envelope", "seconds": 90}, {"name": "FuzzC12_PolicyJSON", "seconds": 60}, {"name": "FuzzC12_ConfigJSON", "seconds": 60}, {"name": "FuzzC12_CacheEntry", "seconds": 60}])
 
 P("C13",
-  technique="model-based PBT over real directory trees: generated store type/name/directory shape/entries; all-or-nothing oracle on exact DER multiset and typed errors",
+  technique="model-based PBT over real directory trees: generated store type/name/directory shape/entries; all-or-nothing oracle on exact DER multiset and typed errors; store values reused across in-place content changes",
   level_text="Exploration: GetCertificates on generated trust-store trees compared with a model that knows every entry's validity by construction.",
   level_note="FIFOs/devices are excluded (would block); runs as root, so permission-denied classes are not generated.",
   health={"ok": 50, "fail": 50, "model=succeed": 50, "model=either": 5, "type=ca": 20, "type=signingAuthority": 20, "type=tsa": 20, "type=invalid": 10,
